@@ -43,7 +43,8 @@ type vStoreSys struct {
 	session  int
 	maxSess  int
 	compacts int
-	nBg      int               // Compact / Tick operations used (bounded in c09 mode)
+	nBg      int // Compact / Tick operations used (bounded in c09 mode)
+	nRemOps  int
 	segNames map[string]string // every segment file ever created -> content hash when completed
 	logSeen  int
 }
@@ -62,6 +63,7 @@ func (s *vStoreSys) Reset() {
 	s.session = 1
 	s.compacts = 0
 	s.nBg = 0
+	s.nRemOps = 0
 	s.segNames = map[string]string{}
 	s.logSeen = 0
 	var err error
@@ -111,6 +113,18 @@ func (s *vStoreSys) Enabled() []vOp {
 		ops = append(ops, vOp{K: "Flush"}, vOp{K: "Search", B: 0})
 		if s.session < s.maxSess {
 			ops = append(ops, vOp{K: "CloseReopen"})
+		}
+		if s.nRemOps < 2 {
+			// removals (refused: unknown id; accepted: a live id of the active memtable)
+			ops = append(ops, vOp{K: "Remove", A: 99})
+			ids := []int{}
+			for id := range s.live {
+				ids = append(ids, int(id))
+			}
+			sort.Ints(ids)
+			for _, id := range ids {
+				ops = append(ops, vOp{K: "Remove", A: id})
+			}
 		}
 		if s.nBg < 2 {
 			// background activity that can happen in any session: the compaction check
@@ -167,6 +181,7 @@ func (s *vStoreSys) Apply(op vOp, hist []vOp, check bool) {
 		}
 	case "Remove":
 		var err error
+		s.nRemOps++
 		s.env.do(func() { err = s.st.Remove(uint32(op.A)) })
 		if s.env.dead == "" && err == nil {
 			delete(s.live, uint32(op.A))
@@ -370,7 +385,7 @@ func (s *vStoreSys) Key() string {
 		d := s.live[uint32(id)]
 		fmt.Fprintf(&sb, "%d=%d/%v/%v/%v;", id, d.doc, d.durable, s.decodes() > d.decodesAt, s.compacts > d.compactAt)
 	}
-	fmt.Fprintf(&sb, "rem%v n%d sess%d bg%d", vSetStr(s.removed), s.nAdd, s.session, s.nBg)
+	fmt.Fprintf(&sb, "rem%v n%d sess%d bg%d ro%d", vSetStr(s.removed), s.nAdd, s.session, s.nBg, s.nRemOps)
 	return sb.String()
 }
 
